@@ -583,7 +583,8 @@ struct FileWriterMatrix : Family {
 			Out o = callLib(plan, [&] {
 				FW w(path, static_cast<FW::OpenMode>(flags));
 				w.Write(d1.data(), d1.size());
-				w.Write(d2.data(), d2.size());
+				if (op.u("n1") & 1) { FW moved(std::move(w)); moved.Write(d2.data(), d2.size()); } // the writer is moved between the two writes
+				else w.Write(d2.data(), d2.size());
 			}, &what);
 			std::string desc = "FileWriter(" + path + ", flags=" + std::to_string(flags) + (canExisting ? " CanOpenExisting" : "") + (canNew ? " CanOpenNew" : "") + (trunc ? " Truncate" : "") + (app ? " Append" : "") + "), destination " + (state == 2 ? "is a FIFO; " : state == 3 ? "is a symbolic link to a regular file; " : "") + "file " + (exists ? "exists with " + std::to_string(old.size()) + " bytes" : "does not exist");
 			if (fifoReader >= 0) { char sink[4096]; while (read(fifoReader, sink, sizeof sink) > 0) {} close(fifoReader); }
